@@ -114,3 +114,60 @@ func short(v reflect.Value) string {
 	}
 	return fmt.Sprintf("%s(%s)", v.Type(), s)
 }
+
+// textPayloads lists what the TextPayload() accessor of every element of the
+// model returns (path = value), in traversal order. The accessor is what the
+// engine reads expressions, timers and scripts through; it normalises the
+// stored text, so the stored field may differ where the accessor does not.
+func textPayloads(m any) []string {
+	var out []string
+	seen := 0
+	var rec func(v reflect.Value, path string, depth int)
+	rec = func(v reflect.Value, path string, depth int) {
+		if !v.IsValid() || depth > 200 || seen > 20000 {
+			return
+		}
+		seen++
+		switch v.Kind() {
+		case reflect.Pointer, reflect.Interface:
+			if !v.IsNil() {
+				rec(v.Elem(), path, depth+1)
+			}
+		case reflect.Struct:
+			if v.CanAddr() {
+				if mth := v.Addr().MethodByName("TextPayload"); mth.IsValid() && mth.Type().NumIn() == 0 && mth.Type().NumOut() == 1 {
+					if r := mth.Call(nil)[0]; r.Kind() == reflect.Pointer && !r.IsNil() && r.Elem().Kind() == reflect.String {
+						if s := r.Elem().String(); s != "" {
+							out = append(out, fmt.Sprintf("%s = %q", path, s))
+						}
+					}
+				}
+			}
+			for i := 0; i < v.NumField(); i++ {
+				if f := v.Type().Field(i); f.IsExported() {
+					rec(v.Field(i), path+"."+f.Name, depth+1)
+				}
+			}
+		case reflect.Slice:
+			for i := 0; i < v.Len(); i++ {
+				rec(v.Index(i), fmt.Sprintf("%s[%d]", path, i), depth+1)
+			}
+		}
+	}
+	rec(reflect.ValueOf(m), "", 0)
+	return out
+}
+
+// sameTexts compares two models' accessor texts exactly.
+func sameTexts(a, b any) string {
+	ta, tb := textPayloads(a), textPayloads(b)
+	for i := 0; i < len(ta) && i < len(tb); i++ {
+		if ta[i] != tb[i] {
+			return fmt.Sprintf("%s vs %s", ta[i], tb[i])
+		}
+	}
+	if len(ta) != len(tb) {
+		return fmt.Sprintf("%d vs %d non-empty text payloads", len(ta), len(tb))
+	}
+	return ""
+}
